@@ -657,6 +657,14 @@ static json op_queries(const json& req)
     return out;
 }
 
+json op_exprseq_impl(Document& doc, const json& req);   // exprseq.cpp
+static json op_exprseq(const json& req)
+{
+    Context& c = get_context(req["ctx"]);
+    json out = op_exprseq_impl(*c.doc, req);
+    out["ctx"] = c.info;
+    return out;
+}
 json op_pm(const json& req);        // pm.cpp
 json op_block(const json& req);     // pm.cpp
 json op_history(const json& req);   // history.cpp
@@ -680,6 +688,8 @@ static json dispatch(const json& req)
         return op_queries(req);
     if (op == "equalpool")
         return op_equalpool(req);
+    if (op == "exprseq")
+        return op_exprseq(req);
     if (op == "pm")
         return op_pm(req);
     if (op == "block")
